@@ -1,5 +1,6 @@
 import Hgxv.Proofs.C01Cor
 import Hgxv.Proofs.C01Query
+import Hgxv.Proofs.C01Shrink
 /-! # C01 - property theorems
 
 Model and vocabulary: `Hgxv/Model/C01.lean` (concrete `Store`/`step`/`answer`, abstract `Spec`); helper lemmas:
@@ -255,6 +256,66 @@ example :
     (step (run (init 2) (C01.demo.take 10)) (.on 1 (.addEdge [1, 2] (some 8) none))).2 = .rej ∧
     (step (run (init 2) (C01.demo.take 10)) (.on 0 (.addEdges [[1, 5], [5, 6]] (some [4, 4]) (some [[]])))).2 = .rej ∧
     (step (run (init 2) (C01.demo.take 10)) (.on 0 (.removeNode 3 false))).2 = .rej := by decide
+
+/-- **`remove_node`, declaratively: dropping or shrinking the incident hyperedges.**  `Spec.removeNode` is written as the
+code runs (re-insert each incident hyperedge without the node, remove the incident ones, drop the node); this theorem
+says what that *is*, for every abstract state `a` of every history and every node `n` of it
+(`Spec.weightOf` / `Spec.emetaOf` read 0 / `[]` for an absent key):
+* `keep_edges=False`: accepted; the node list loses exactly `n`; a key is looked up as before unless it contains `n`,
+  and then it is gone;
+* `keep_edges=True`: accepted; the node list loses exactly `n`; the new key set is exactly `{ e \ {n} : e a key }`
+  (nothing is dropped, nothing else appears, no key contains `n`); in a weighted hypergraph the weight of a key `x`
+  is its old weight plus the weights of the hyperedges containing `n` that shrink onto it (so a shrunk hyperedge that
+  meets an existing one *adds* its weight, and one that is new carries its weight over); in an unweighted one every
+  weight stays 1; a key onto which no hyperedge shrinks keeps weight and metadata; a key onto which one shrinks gets the
+  metadata of a hyperedge that shrinks onto it.
+With `C01_refines` / `C01_refines_state` the same holds for the tables of the implementation model. -/
+theorem C01_remove_node (k : Nat) (cs : List Cmd) (hwf : ∀ c ∈ cs, c.WF) (a : Spec)
+    (ha : a ∈ Spec.run (Spec.init k) cs) (n : Node) (hn : n ∈ keys a.nodes) :
+    (∃ a', Spec.removeNode a n false = (a', .ok) ∧ keys a'.nodes = (keys a.nodes).filter (· ≠ n) ∧
+        a'.weighted = a.weighted ∧ a'.hmeta = a.hmeta ∧
+        ∀ x, get? a'.edges x = if n ∈ x then none else get? a.edges x) ∧
+    (∃ a', Spec.removeNode a n true = (a', .ok) ∧ keys a'.nodes = (keys a.nodes).filter (· ≠ n) ∧
+        a'.weighted = a.weighted ∧ a'.hmeta = a.hmeta ∧
+        (∀ x, x ∈ keys a'.edges ↔ ∃ e ∈ keys a.edges, e.filter (· ≠ n) = x) ∧
+        (a.weighted = true → ∀ x, n ∉ x → Spec.weightOf a' x = Spec.weightOf a x +
+            (((Spec.incidentKeys a n).filter (fun e => decide (e.filter (· ≠ n) = x))).map (Spec.weightOf a)).sum) ∧
+        (a.weighted = false → ∀ x ∈ keys a'.edges, Spec.weightOf a' x = one) ∧
+        (∀ x, n ∉ x → (∀ e ∈ keys a.edges, n ∈ e → e.filter (· ≠ n) ≠ x) → get? a'.edges x = get? a.edges x) ∧
+        (∀ x, (∃ e ∈ keys a.edges, n ∈ e ∧ e.filter (· ≠ n) = x) →
+          ∃ e ∈ keys a.edges, n ∈ e ∧ e.filter (· ≠ n) = x ∧ Spec.emetaOf a' x = Spec.emetaOf a e)) := by
+  rw [(C01_refines_state k cs hwf (.copy 0 0) trivial).1] at ha
+  obtain ⟨s, hs, rfl⟩ := List.mem_map.mp ha
+  have hswf := abs_swf (C01_inv k cs hwf s hs)
+  have hn' : (get? (abs s).nodes n).isSome := (mem_keys_iff _ _).mp hn
+  obtain ⟨a1, d1, d2, d3, d4, d5⟩ := spec_removeNode_drop _ hswf n hn'
+  obtain ⟨a2, k1, k2, k3, k4, k5, k6, k7, k8, k9⟩ := spec_removeNode_keep _ hswf n hn'
+  refine ⟨⟨a1, d1, by rw [d2, keys_del], d3, d4, d5⟩, a2, k1, by rw [k2, keys_del], k3, k4, ?_, ?_, ?_, ?_, ?_⟩
+  · intro x
+    rw [mem_keys_iff, k6 x]
+    constructor
+    · rintro ⟨e, h1, h2⟩; exact ⟨e, (mem_keys_iff _ _).mpr h1, h2⟩
+    · rintro ⟨e, h1, h2⟩; exact ⟨e, (mem_keys_iff _ _).mp h1, h2⟩
+  · intro hw x hx; exact k7 hw x hx
+  · intro hw x hx
+    obtain ⟨p, hp⟩ := Option.isSome_iff_exists.mp ((mem_keys_iff _ _).mp hx)
+    obtain ⟨w, md⟩ := p
+    rw [(spec_weightOf_get a2 x w md hp).1]
+    exact k5.unw (by rw [k3]; exact hw) x w md hp
+  · intro x hx hno
+    exact k8 x hx (fun e he hne => hno e ((mem_keys_iff _ _).mpr he) hne)
+  · rintro x ⟨e, h1, h2, h3⟩
+    obtain ⟨e', g1, g2, g3, g4⟩ := k9 x ⟨e, (mem_keys_iff _ _).mp h1, h2, h3⟩
+    exact ⟨e', (mem_keys_iff _ _).mpr g1, g2, g3, g4⟩
+
+/-- non-vacuity: in the demo history, after command 9, node 3 lies in `{1,2,3}` (weight 14) and `{3,4}` (weight 2) next to
+`{1,2}` (weight 12): shrinking merges 14 into 12 and turns `{3,4}` into `{4}`; dropping leaves `{1,2}` alone -/
+example : ∃ a ∈ Spec.run (Spec.init 2) (C01.demo.take 9), 3 ∈ keys a.nodes ∧ a.weighted = true ∧
+    (a.edges.map fun p => (p.1, p.2.1)) = [([1, 2, 3], 14), ([1, 2], 12), ([3, 4], 2)] ∧
+    ((Spec.removeNode a 3 true).1.edges.map fun p => (p.1, p.2.1)) = [([1, 2], 26), ([4], 2)] ∧
+    ((Spec.removeNode a 3 false).1.edges.map fun p => (p.1, p.2.1)) = [([1, 2], 12)] := by
+  refine ⟨_, List.mem_cons_self, ?_⟩
+  decide
 
 /-- **Filters.** For every store and every query with a filter: `size = k` answers exactly as `order = k - 1`
 (with the same `up_to`); giving both `order` and `size` is rejected; and the hyperedge listing with
